@@ -199,11 +199,9 @@ def _convert_direct_call(node: ast.Call) -> libsbml.ASTNode:
             sbml_node.addChild(_convert_node(arg))
         return sbml_node
 
-    # General function call
-    sbml_node = libsbml.ASTNode(libsbml.AST_FUNCTION)
-    for arg in node.args:
-        sbml_node.addChild(_convert_node(arg))
-    return sbml_node
+    # A call of anything else has no MathML counterpart
+    msg = f"Unknown function: {func}"
+    raise NotImplementedError(msg)
 
 
 def _convert_library_call(node: ast.Call) -> libsbml.ASTNode:
@@ -227,11 +225,9 @@ def _convert_library_call(node: ast.Call) -> libsbml.ASTNode:
                 sbml_node.addChild(_convert_node(arg))
             return sbml_node
 
-    # General library call
-    sbml_node = libsbml.ASTNode(libsbml.AST_FUNCTION)
-    for arg in node.args:
-        sbml_node.addChild(_convert_node(arg))
-    return sbml_node
+    # A call of anything else has no MathML counterpart
+    msg = f"Unknown function: {parent}.{attr}"
+    raise NotImplementedError(msg)
 
 
 def _convert_call(node: ast.Call) -> libsbml.ASTNode:
